@@ -81,6 +81,13 @@ def float_relations(chk: Check, n):
         cm = rng.choice([-1, 1]) * rng.uniform(0.1, 10) * scale
         tm = cm * rng.choice([1.0, 1.0 + rng.uniform(-0.3, 0.3), -0.5]) + (rng.uniform(-1, 1) * scale if k % 3 == 0 else 0)
         cv, tv = rng.uniform(0.01, 5) * scale ** 2, rng.uniform(0.01, 5) * scale ** 2
+        if k % 8 == 5:
+            # means of equal sign that are tiny next to their standard errors: the log-scale half-width is in the
+            # hundreds or thousands, exp() of it over- and underflows — the relative interval must still contain the
+            # relative effect (lower bound -1 = exp(-huge) - 1, upper bound +inf)
+            sgn = rng.choice([-1, 1])
+            cm, tm = sgn * 1e-4 * rng.choice([1, 3, 0.01]), sgn * 2e-4 * rng.choice([1, 0.2, 5])
+            cv, tv, cn, tn = rng.choice([1.0, 25.0]), rng.choice([1.0, 0.5]), rng.choice([2, 10, 40]), rng.choice([3, 10])
         c = A(cn, {"x": cm}, {"x": cv}, {})
         t = A(tn, {"x": tm}, {"x": tv}, {})
         cl1, cl2 = sorted(rng.choice([0.01, 0.1, 0.3, 0.5, 0.8, 0.9, 0.95, 0.99, rng.uniform(0.02, 0.98)])
